@@ -5,7 +5,7 @@ props=$(python3 -c "import json; print(' '.join(c['property_id'] for c in json.l
 bad=0; n=0
 for seed in "$@"; do
   for p in $props; do
-    out=$(VERIF_SEED=$seed ${EXTRA_ENV:-} ./check $p quick 2>&1); rc=$?; n=$((n+1))
+    out=$(env VERIF_SEED=$seed ${EXTRA_ENV:-} ./check $p quick 2>&1); rc=$?; n=$((n+1))
     if [ $rc -ne 0 ]; then bad=$((bad+1)); echo "seed=$seed $p rc=$rc :: $(echo "$out" | grep -E "VIOLATION|signature:|INFRA" | head -4 | tr '\n' ' ' | cut -c1-300)"; cp -f replays/$p-quick-$seed-0-0.json .work/ 2>/dev/null; fi
   done
 done
